@@ -83,3 +83,34 @@ prop(
                  "float64 = IEEE-754 binary64 (see C10 stage f64)",
                  "the exact-layer theorems assume admissible steps (run_ok); admissibility of the implementation's steps is checked per run by jit_ok, not proved"],
 )
+
+WORKERS_ACCESS = ("internal/workers", "workers_access.go")
+
+
+def c01_key(c, model):
+    return "counts-differ"
+
+
+prop(
+    id="C01",
+    stages=[dict(name="c01stress", pkg="c01", test="TestC01Stress", access=[RUN_ACCESS, WORKERS_ACCESS], timeout_quick=300, timeout_thorough=3000),
+            dict(name="c01runs", pkg="c01", test="TestC01Runs", access=[RUN_ACCESS, WORKERS_ACCESS], timeout_quick=300, timeout_thorough=3000),
+            dict(name="c17seq", pkg="c01", test="TestC17Seq", access=[RUN_ACCESS, WORKERS_ACCESS], timeout_quick=300, timeout_thorough=3000)],
+    key=c01_key,
+    rule="(a) component stress: 1-32 goroutines drive the real ActiveScenario.Run / RecordDroppedIteration with random outcome plans (thousands of records each) "
+         "while 1-3 goroutines loop Result.SnapshotProgress; then GetTotals; oracle = extracted predicate c01_ok on (plan counts, result totals, exported sample counts); "
+         "(b) whole runs (users/constant/staged) with a goroutine forcing snapshots through the run's Result; (c) sequential op sequences of Stats.Record/Snapshot/Total "
+         "compared exactly with the sequential model; non-trivial = at least one snapshot ran concurrently with recorded iterations (a,b) / >= 2 snapshots in the sequence (c); distinct = distinct cases",
+    assumptions=["sync/atomic operations are sequentially consistent; one model step per atomic/lock operation",
+                 "Result.mu serialises collectors (modelled as a lock); GetTotals runs after all iterations completed",
+                 "prometheus SummaryVec.Observe increments the sample count atomically (modelled as one step)",
+                 "scheduler non-determinism is explored by stress, not enumerated: the theorem covers all schedules of the model, the harness samples real ones"],
+)
+
+prop(
+    id="C17",
+    stages=[dict(name="c17seq", pkg="c01", test="TestC17Seq", access=[RUN_ACCESS, WORKERS_ACCESS], timeout_quick=300, timeout_thorough=3000)],
+    rule="random sequences (0-60 ops, some 500-2000) of Stats.Record (success/fail/dropped/unknown; durations 1ns..1h) with Snapshot and Total anywhere "
+         "(leading, consecutive); every field of every snapshot compared exactly with the sequential model; non-trivial = >= 2 snapshots in the sequence; distinct = distinct op sequences",
+    assumptions=["sequential use (one goroutine); durations positive and sums below 2^63"],
+)
